@@ -169,7 +169,7 @@ def routine_cases(tier):
                 for k in range(1, n + 1):
                     for which in ("LM", "SM"):
                         out.append(["ROUTINE", "eig-struct", kind, n, tok, k, which])
-            for fn in ("exp", "sqrt", "log", "isqrt", "pow2.5", "inv", "cholesky", "plu"):
+            for fn in ("exp", "expi", "sqrt", "log", "isqrt", "pow2.5", "inv", "cholesky", "plu"):
                 for alg in ("Auto", "Eigh", "Lanczos", "Eig", "Arnoldi"):
                     if fn in ("inv", "cholesky", "plu") and alg != "Auto":
                         continue
@@ -256,6 +256,8 @@ def observe_routine(term, seed):
                 if fn == "exp":
                     A2, _ = _op(seed, fam, n, tok)
                     outs.append(("exp", L.exp(A * 0.125 if False else A2, a)))
+                elif fn == "expi":  # a complex-valued function of a self-adjoint operator: unitary, NOT self-adjoint
+                    outs.append(("expi", L.apply_unary(lambda z: np.exp(0.5j * z), A, a)))
                 elif fn == "sqrt":
                     outs.append(("sqrt", L.sqrt(A, a)))
                 elif fn == "log":
